@@ -132,6 +132,9 @@ def _worker(args):
 
     mod = importlib.import_module(modname)
     try:
+        from hplmc import impl
+
+        impl.install_default_set_order()
         return mod.run(unit)
     except BaseException as e:  # a harness crash must be loud, never silent
         r = Result()
